@@ -55,6 +55,9 @@ const (
 
 	cacheFileMagic   = "P2CC"
 	cacheFileVersion = 1
+
+	// stream id of a stream section that was invalidated or replaced
+	invalidStreamID = ^uint64(0)
 )
 
 func readVarInt(r io.ByteReader) (uint64, int, error) {
@@ -280,6 +283,15 @@ func NewCacheFile(cachePath string) (*cacheFile, error) {
 		}
 		res.fileSize += streamHeaderSize
 
+		if streamSection.StreamID == invalidStreamID {
+			// The stream was invalidated, its space is free.
+			if res.freeSize == 0 {
+				res.freeStart = res.fileSize - streamHeaderSize
+			}
+			res.freeSize += streamHeaderSize + int64(streamSize)
+			res.fileSize += int64(streamSize)
+			continue
+		}
 		if info, ok := res.streamInfos[streamSection.StreamID]; ok {
 			if res.freeSize == 0 || res.freeStart > info.offset-streamHeaderSize {
 				res.freeStart = info.offset - streamHeaderSize
@@ -603,6 +615,9 @@ func (cachefile *cacheFile) setData(streamID uint64, streamTime time.Time, conve
 	cachefile.rwmutex.Lock()
 	defer cachefile.rwmutex.Unlock()
 
+	// The new data replaces whatever is cached for this stream.
+	cachefile.freeStream(streamID)
+
 	if cachefile.freeSize >= cleanupMinFreeSize && cachefile.freeSize >= int64(float64(cachefile.fileSize)*cleanupMinFreeFactor) {
 		if err := cachefile.truncateFile(); err != nil {
 			return fmt.Errorf("failed to truncate file: %w", err)
@@ -730,19 +745,36 @@ func (cachefile *cacheFile) InvalidateChangedStreams(streams *bitmask.LongBitmas
 
 	// see which of the streams are in the cache
 	for streamID := uint(0); streams.Next(&streamID); streamID++ {
-		// delete the stream from the in-memory index
+		// delete the stream from the index
 		// it will be re-added when the stream is converted again
-		if info, ok := cachefile.streamInfos[uint64(streamID)]; ok {
-			cachefile.freeSize += int64(info.size) + streamHeaderSize
-			if cachefile.freeStart > info.offset-streamHeaderSize {
-				cachefile.freeStart = info.offset - streamHeaderSize
-			}
-			delete(cachefile.streamInfos, uint64(streamID))
+		if cachefile.freeStream(uint64(streamID)) {
 			invalidatedStreams.Set(streamID)
 		}
 	}
 
 	return invalidatedStreams
+}
+
+// freeStream removes the stream from the in-memory index and marks its section
+// in the file as free, so that it stays removed when the file is opened again.
+// The caller has to hold the write lock.
+func (cachefile *cacheFile) freeStream(streamID uint64) bool {
+	info, ok := cachefile.streamInfos[streamID]
+	if !ok {
+		return false
+	}
+	cachefile.freeSize += int64(info.size) + streamHeaderSize
+	if cachefile.freeStart > info.offset-streamHeaderSize {
+		cachefile.freeStart = info.offset - streamHeaderSize
+	}
+	delete(cachefile.streamInfos, streamID)
+
+	header := [streamHeaderSize]byte{}
+	binary.LittleEndian.PutUint64(header[:], invalidStreamID)
+	if _, err := cachefile.file.WriteAt(header[:], info.offset-streamHeaderSize); err != nil {
+		log.Printf("Failed to invalidate stream %d in converter cache file(%q): %v\n", streamID, cachefile.cachePath, err)
+	}
+	return true
 }
 
 // func (writer *writer) invalidateStream(stream *index.Stream) error {
